@@ -6,6 +6,7 @@ import (
 	"encoding/json"
 	"fmt"
 	"io"
+	"strings"
 	"testing"
 
 	"github.com/gregoryv/mq"
@@ -62,6 +63,9 @@ func checkC14(c caseC14) (sig, msg string) {
 	})
 	defer guard.SetCurrent(nil)
 	var pool []*slotC14
+	// one *bufio.Reader for the whole history, Reset before every use (a
+	// reader taken from a pool)
+	pooled := bufio.NewReaderSize(bytes.NewReader(nil), 64)
 	verify := func(step int, op opC14, except int) bool {
 		for i, s := range pool {
 			if i == except {
@@ -123,6 +127,19 @@ func checkC14(c caseC14) (sig, msg string) {
 						rd = bytes.NewBuffer(s.retained) // the buffer's storage IS the retained slice
 					case "bufio":
 						rd = bufio.NewReaderSize(bytes.NewReader(s.retained), 64)
+					case "pooled-bufio":
+						pooled.Reset(bytes.NewReader(s.retained))
+						rd = pooled
+					case "pooled-bufio-after-timeout":
+						// the pooled reader's previous connection timed out in
+						// the middle of this very frame's body
+						if len(s.retained) > 3 {
+							terr := &timeoutError{id: step}
+							pooled.Reset(&guard.ScriptReader{Data: s.retained[:len(s.retained)-1], Injected: terr, After: terr})
+							_, _ = mq.ReadPacket(pooled)
+						}
+						pooled.Reset(bytes.NewReader(s.retained))
+						rd = pooled
 					}
 					s.p, err = mq.ReadPacket(rd)
 				})
@@ -137,6 +154,19 @@ func checkC14(c caseC14) (sig, msg string) {
 				for _, b := range tail {
 					if b != 0xa5 {
 						return "wrote-past-input", fmt.Sprintf("step %d: UnmarshalBinary of %s wrote into the caller's buffer behind the slice it was given (spare capacity): %s", step, hx(op.Frame), hx(tail))
+					}
+				}
+			}
+			if op.Kind == "readpacket" && strings.HasPrefix(op.Reader, "pooled-bufio") {
+				// what the pooled reader was used for before is no business of
+				// this frame: same outcome as from a reader of its own
+				fq, ferr, fpan := read(append([]byte(nil), op.Frame...))
+				if fpan == nil && (ferr == nil) != (err == nil) {
+					return "history-dependent-decode", fmt.Sprintf("step %d: frame %s read through a pooled *bufio.Reader (%s) gives err=%v, through a reader of its own err=%v", step, hx(op.Frame), op.Reader, err, ferr)
+				}
+				if fpan == nil && ferr == nil && err == nil && s.p != nil && fq != nil {
+					if d := model.Diff(api.Observe(s.p), api.Observe(fq)); d != "" {
+						return "history-dependent-decode", fmt.Sprintf("step %d: frame %s read through a pooled *bufio.Reader (%s) decodes differently than through a reader of its own: %s", step, hx(op.Frame), op.Reader, d)
 					}
 				}
 			}
@@ -312,6 +342,29 @@ func checkC14(c caseC14) (sig, msg string) {
 				b.frame = append([]byte(nil), a.frame...)
 			}
 			except = ai
+		case "attach-will":
+			// a pool PUBLISH (decoded, carrying what a will never carries:
+			// packet identifier, DUP, alias, subscription identifiers) is
+			// handed to SetWill of a new CONNECT, which is then written. The
+			// CONNECT is dropped again (it now shares the Publish by design);
+			// the Publish itself must be what it was.
+			if len(pool) == 0 {
+				continue
+			}
+			src := pool[op.Slot%len(pool)]
+			pub, ok := src.p.(*mq.Publish)
+			if !ok {
+				continue
+			}
+			if pan := guard.Call(func() {
+				cn := mq.NewConnect()
+				cn.SetClientID("c14")
+				cn.SetWill(pub)
+				_, _, _ = api.Encode(cn)
+				_ = cn.String()
+			}); pan != nil {
+				return "panic", fmt.Sprintf("step %d: SetWill with a pool PUBLISH panicked: %v", step, pan.Value)
+			}
 		case "reuse":
 			// a frame of the same type is decoded into a packet value that is
 			// already in the pool (a read loop that reuses one value): whatever
@@ -440,7 +493,7 @@ func TestC14(t *testing.T) {
 		var kinds []string
 		types := map[int]uint8{}
 		for i := 0; i < n; i++ {
-			k := rapid.IntRange(0, 14).Draw(t, "op")
+			k := rapid.IntRange(0, 15).Draw(t, "op")
 			if live == 0 && k > 3 {
 				k = rapid.IntRange(0, 3).Draw(t, "op0")
 			}
@@ -559,7 +612,7 @@ func TestC14(t *testing.T) {
 					f = ref.Canonical(&m)
 				}
 				op.Frame = f
-				op.Reader = rapid.SampledFrom([]string{"bytes.Reader", "bytes.Buffer", "bytes.Buffer", "bufio"}).Draw(t, "rp-reader")
+				op.Reader = rapid.SampledFrom([]string{"bytes.Reader", "bytes.Buffer", "bytes.Buffer", "bufio", "pooled-bufio", "pooled-bufio-after-timeout"}).Draw(t, "rp-reader")
 				types[live] = op.Frame[0] >> 4
 				live++
 			case k == 3:
@@ -602,6 +655,19 @@ func TestC14(t *testing.T) {
 				if s.IsList {
 					op.Index = listLenOf(&m, s.Name) - 1
 				}
+			case k == 15:
+				op.Kind = "attach-will"
+				op.Slot = rapid.IntRange(0, 5).Draw(t, "slot")
+				var pubs []int
+				for idx := 0; idx < live; idx++ {
+					if types[idx] == model.PUBLISH {
+						pubs = append(pubs, idx)
+					}
+				}
+				if len(pubs) > 0 {
+					op.Slot = pubs[rapid.IntRange(0, len(pubs)-1).Draw(t, "pubslot")]
+				}
+				nt = true
 			case k == 14:
 				op.Kind = "reuse"
 				op.Slot = rapid.IntRange(0, 5).Draw(t, "slot")
